@@ -10,7 +10,7 @@ from __future__ import annotations
 
 from typing import Any
 
-from vf.core import Collector, Ctx, hyp_explore, jdump
+from vf.core import Collector, Ctx, StopExploration, hyp_explore, jdump
 
 RULE = (
     "Histories: a 10..120-packet slice of one of the committed system/eavesdrop/schema logs, with 0-6 mutations "
@@ -90,7 +90,15 @@ def explore(job: dict) -> dict:
             col.note(f"loop exception (recorded, not a C13 clause): {obs['loop_exceptions'][0]['exc']} @ {obs['loop_exceptions'][0]['site']}", len(obs["loop_exceptions"]))
         for sig, detail in judge(hist, obs):
             col.violation(sig, hist, detail)
+            if sig.get("clause") == "cannot-send":
+                stuck[0] += 1
+        if stuck[0] >= 3:
+            # a transmitter that no longer sends makes every further case wait out the probe's whole allowance (minutes of 10 ms
+            # virtual steps each): the verdict is in, stop this worker (recorded as an exhausted budget, not as coverage)
+            col.budget_exhausted = True
+            raise StopExploration()
 
+    stuck = [0]
     hyp_explore(case(), body, job["n"], job["seed"])
     return col.dump()
 
